@@ -42,6 +42,7 @@ def spec(f):
 
 I, S, B, R = z3.IntSort(), z3.StringSort(), z3.BoolSort(), z3.RealSort()
 DICT_ORDER_INVARIANT = True  # representation invariant of insertion-ordered dict VARIABLES at loop heads (engine.assume_dict_wf)
+NESTED_DICT_ORDER = True    # dicts stored as values of a dict keep their insertion-ordered key list (values.fresh)
 PRUNE_BRANCHES = False
 INLINE = ["AtomType.matches", "classify_clash"]
 
@@ -319,7 +320,7 @@ EXTERNALS = {
     "spec.empty_map1": _empty_map(("int",)), "spec.empty_map2": _empty_map(("tuple", (("int",), ("int",)))),
     "spec.empty_map_ss": _empty_map(("tuple", (("str",), ("str",)))),
     "spec.empty_map_ssi": _empty_map(("tuple", (("str",), ("str",), ("int",)))),
-    "spec.empty_map_aar": _empty_map(("tuple", (("int",), ("int",), ("real",)))),
+    "spec.empty_map_aar": _empty_map(("tuple", (("int",), ("int",), ("int",), ("int",), ("real",)))),
     "spec.parsed": ext_parsed, "spec.fstr": ext_fstr,
     "argparse.ArgumentParser": ext_ArgumentParser, "Parser.add_argument": ext_add_argument, "Parser.parse_args": ext_parse_args,
     "builtins.open": ext_open, "TextFile.__enter__": ext_enter, "TextFile.__exit__": ext_exit,
@@ -425,10 +426,90 @@ def positive_sums(C):
     return forall(lambda k: implies(0 <= k and k < len(C), C[k][2] > 0.0))
 
 
+@spec
+def chain_keys_witnessed(C, n, CC, WC):
+    """every chain pair of the nested table is the chain pair of clash WC[pair]"""
+    return forall(lambda s, t: implies((s, t) in CC, 0 <= WC[s, t] and WC[s, t] < n and ck0(C, WC[s, t]) == s and ck1(C, WC[s, t]) == t),
+                  sorts={"s": "str", "t": "str"})
+
+
+@spec
+def residue_keys_witnessed(C, n, CC, WP):
+    """the p-th residue pair listed under a chain pair is a key of that inner table and the residue pair of clash WP[chain pair, p],
+    a clash between these chains"""
+    return forall(lambda s, t, p: implies((s, t) in CC and 0 <= p and p < len(CC[s, t]),
+                                          0 <= WP[s, t, p] and WP[s, t, p] < n and ck0(C, WP[s, t, p]) == s and ck1(C, WP[s, t, p]) == t
+                                          and C[WP[s, t, p]][0][0] is list(CC[s, t].keys())[p][0] and C[WP[s, t, p]][1][0] is list(CC[s, t].keys())[p][1]
+                                          and list(CC[s, t].keys())[p] in CC[s, t]),
+                  sorts={"s": "str", "t": "str"})
+
+
+@spec
+def atom_sets_witnessed(C, n, CC, WA):
+    """every (atom, atom, occupancy sum) stored under a chain pair and a residue pair is clash WA[residue pair, triple] - a clash of
+    exactly these atoms with this sum, between these residues"""
+    return forall(lambda s, t, a, b, x, y, o: implies((s, t) in CC and (a, b) in CC[s, t] and (x, y, o) in CC[s, t][a, b],
+                                                      0 <= WA[a, b, x, y, o] and WA[a, b, x, y, o] < n and C[WA[a, b, x, y, o]][0][1] is x and C[WA[a, b, x, y, o]][1][1] is y
+                                                      and C[WA[a, b, x, y, o]][2] == o and C[WA[a, b, x, y, o]][0][0] is a and C[WA[a, b, x, y, o]][1][0] is b),
+                  sorts={"s": "str", "t": "str", "a": "Residue3D", "b": "Residue3D", "x": "Atom", "y": "Atom", "o": "real"})
+
+
+# pinned text of the report lines (the same format the bounded tool-report check parses)
+@spec
+def chain_line(s, t, m):
+    return ite(s == t, "Clashes found in chain " + s + " with maximum occupancy sum equal to " + fstr(m),
+               "Clashes found between chains " + s + " and " + t + " with maximum occupancy sum equal to " + fstr(m))
+
+
+@spec
+def residue_line(a, b, m):
+    return ite(a == b, "    Clashes found in residue " + res_str(a) + " with maximum occupancy sum equal to " + fstr(m),
+               "    Clashes found between residues " + res_str(a) + " and " + res_str(b) + " with maximum occupancy sum equal to " + fstr(m))
+
+
+@spec
+def atom_line(x, y, o):
+    return "        Clashes found between atoms " + x.name + " and " + y.name + " with occupancy sum of " + fstr(o)
+
+
+@spec
+def line_ok(C, MR, MC, line, kind, k):
+    """`line` is a report line of the given kind about clash k: 0 = the line of k's chain pair with the occupancy sum of clash
+    MC[chain pair]; 1 = the line of k's residue pair with the sum of clash MR[residue pair]; 2 = the line of clash k itself"""
+    return (0 <= k and k < len(C) and 0 <= kind and kind <= 2
+            and implies(kind == 0, line == chain_line(ck0(C, k), ck1(C, k), C[MC[ck0(C, k), ck1(C, k)]][2]))
+            and implies(kind == 1, line == residue_line(C[k][0][0], C[k][1][0], C[MR[C[k][0][0], C[k][1][0]]][2]))
+            and implies(kind == 2, line == atom_line(C[k][0][1], C[k][1][1], C[k][2])))
+
+
+@spec
+def report_ok(C, MR, MC, OUT, LK, LC):
+    """nothing but such lines is printed"""
+    return (len(LK) == len(OUT) and len(LC) == len(OUT) and 0 <= len(OUT)
+            and forall(lambda p: implies(0 <= p and p < len(OUT), line_ok(C, MR, MC, OUT[p], LK[p], LC[p]))))
+
+
+@spec
+def row_ok(C, row, k):
+    """`row` is the CSV row of clash k: file stem, (metadata), 'residue atom' twice, occupancy sum"""
+    return (0 <= k and k < len(C) and row[0] == path_root(path_basename(cli_input()))
+            and row[3] == res_str(C[k][0][0]) + " " + C[k][0][1].name and row[4] == res_str(C[k][1][0]) + " " + C[k][1][1].name
+            and row[5] == C[k][2])
+
+
+@spec
+def rows_ok(C, ROWS, RC):
+    return len(RC) == len(ROWS) and 0 <= len(ROWS) and forall(lambda q: implies(0 <= q and q < len(ROWS), row_ok(C, ROWS[q], RC[q])))
+
+
 CLASH = "list[tuple[tuple[Residue3D,Atom],tuple[Residue3D,Atom],real]]"
 RKEY = "tuple[Residue3D,Residue3D]"
 CKEY = "tuple[str,str]"
 TRIPLE = "tuple[Atom,Atom,real]"
+ROW = "tuple[str,str,str,str,str,real,opt[str]]"
+CLI_OPTS = "cli_ignore_occupancy(), cli_ignore_autoclashes(), cli_require_same_atom_name(), cli_enable_molprobity_mode()"
+REPORT = "report_ok(clashes, MR, MC, OUT, LK, LC)"
+PUSH_LINE = "let OUT = push(OUT, last_printed)"
 
 
 class main:
@@ -439,37 +520,86 @@ class main:
         "distinct_atoms(parsed(cli_input()))",
         "implies(cli_ignore_occupancy(), nonneg_occupancies(parsed(cli_input())))",
     ]
-    raises = ["SystemExit", "OSError", "ValueError"]
+    # SystemExit: bad command line; OSError: files; ValueError: malformed input file; TypeError: unorderable atoms in sorted();
+    # KeyError / IndexError: the metadata of the input file lack exptl.method / refine.ls_d_res_high (CSV only)
+    raises = ["SystemExit", "OSError", "ValueError", "TypeError", "KeyError", "IndexError"]
     modifies = []
     locals = {"clashing_chains": f"dict[{CKEY},dict[{RKEY},set[{TRIPLE}]]]", "max_occupancy_residues": f"dict[{RKEY},real]",
               "max_occupancy_chains": f"dict[{CKEY},real]"}
-    stop_before = "if clashing_chains"
-    ghost_entry = ["let MR = empty_map2()", "let MC = empty_map_ss()"]
-    ensures = []
-    stop_ensures = [
+    ghost_entry = ["let MR = empty_map2()", "let MC = empty_map_ss()", "let WC = empty_map_ss()", "let WP = empty_map_ssi()",
+                   "let WA = empty_map_aar()", "let OUT = empty('list[str]')", "let LK = empty_ints()", "let LC = empty_ints()",
+                   f"let ROWS = empty('list[{ROW}]')", "let RC = empty_ints()"]
+    ensures = [
+        # (3) the clash list is find_clashes' result for the residues of the input file and the command-line options
+        "len(find_clashes_KI) == len(clashes) and forall(lambda k: implies(0 <= k and k < len(clashes), "
+        "0 <= find_clashes_KI[k] and find_clashes_KI[k] < find_clashes_KJ[k] and find_clashes_KJ[k] < len(find_clashes_GA) "
+        "and entry_is(clashes[k], parsed(cli_input()), find_clashes_GA, find_clashes_GP, find_clashes_KI[k], find_clashes_KJ[k]) "
+        f"and clash(parsed(cli_input()), find_clashes_GA, find_clashes_GP, find_clashes_KI[k], find_clashes_KJ[k], {CLI_OPTS})))",
+        f"forall(lambda t, u: implies(0 <= t and t < u and u < len(find_clashes_GA) and clash(parsed(cli_input()), find_clashes_GA, find_clashes_GP, t, u, {CLI_OPTS}), "
+        "exists(lambda k: 0 <= k and k < len(clashes) and find_clashes_KI[k] == t and find_clashes_KJ[k] == u)))",
+        "forall(lambda t: implies(0 <= t and t < len(find_clashes_GA), selpos(parsed(cli_input()), cli_nucleic_acid_only(), find_clashes_GA[t], find_clashes_GP[t])))",
+        # (1), (2) the two tables of maxima
         "res_entries(clashes, len(clashes), max_occupancy_residues, MR)",
         "res_covers(clashes, len(clashes), max_occupancy_residues)",
         "chain_entries(clashes, len(clashes), max_occupancy_chains, MC)",
         "chain_covers(clashes, len(clashes), max_occupancy_chains)",
+        # (4) the report
+        REPORT,
+        "rows_ok(clashes, ROWS, RC)",
     ]
-    stop_ensures_labels = {0: "residue-pair-entry-is-a-clash-of-the-pair", 1: "residue-pair-entry-is-the-maximum",
-                           2: "chain-pair-entry-is-a-clash-of-the-pair", 3: "chain-pair-entry-is-the-maximum"}
+    ensures_labels = {0: "clash-list-is-find_clashes-of-the-input-file-under-the-command-line-options",
+                      1: "every-clash-under-the-command-line-options-is-in-the-list", 2: "atoms-considered-follow-nucleic-acid-only",
+                      3: "residue-pair-entry-is-a-clash-of-the-pair", 4: "residue-pair-entry-is-the-maximum",
+                      5: "chain-pair-entry-is-a-clash-of-the-pair", 6: "chain-pair-entry-is-the-maximum",
+                      7: "every-printed-line-reports-a-clash-or-the-maximum-of-its-pair", 8: "every-csv-row-is-a-listed-clash"}
+    TABLE_LABELS = {0: "residue-pair-entry-is-a-clash-of-the-pair", 1: "residue-pair-entry-is-the-maximum",
+                    2: "chain-pair-entry-is-a-clash-of-the-pair", 3: "chain-pair-entry-is-the-maximum",
+                    4: "chain-pairs-of-the-nested-table-have-a-clash", 5: "residue-pairs-of-the-nested-table-have-a-clash",
+                    6: "atom-triples-of-the-nested-table-are-clashes"}
     loops = {
         0: {"index": "n", "inv": [
             "res_entries(clashes, n, max_occupancy_residues, MR)",
             "res_covers(clashes, n, max_occupancy_residues)",
             "chain_entries(clashes, n, max_occupancy_chains, MC)",
             "chain_covers(clashes, n, max_occupancy_chains)",
-        ], "labels": {0: "residue-pair-entry-is-a-clash-of-the-pair", 1: "residue-pair-entry-is-the-maximum",
-                      2: "chain-pair-entry-is-a-clash-of-the-pair", 3: "chain-pair-entry-is-the-maximum"}},
+            "chain_keys_witnessed(clashes, n, clashing_chains, WC)",
+            "residue_keys_witnessed(clashes, n, clashing_chains, WP)",
+            "atom_sets_witnessed(clashes, n, clashing_chains, WA)",
+        ], "labels": TABLE_LABELS},
+        1: {"index": "c", "inv": [REPORT], "labels": {0: "report"}},
+        2: {"index": "r", "inv": [REPORT], "labels": {0: "report"}},
+        3: {"index": "a", "inv": [REPORT], "labels": {0: "report"}},
+        4: {"index": "c", "inv": ["rows_ok(clashes, ROWS, RC)"], "labels": {0: "rows"}},
+        5: {"index": "r", "inv": ["rows_ok(clashes, ROWS, RC)"], "labels": {0: "rows"}},
+        6: {"index": "a", "inv": ["rows_ok(clashes, ROWS, RC)"], "labels": {0: "rows"}},
     }
     ghost = [
         {"when": "before", "at": "if clashes", "label": "clash-list",
-         "do": ["assert positive_sums(clashes)"]},
+         "do": ["assert positive_sums(clashes)",
+                # dict keys / set members are compared with ==; the engine indexes them by identity: the same thing here
+                "assert keys_by_identity(clashes)"]},
+        {"when": "before", "at": "if chain_key not in clashing_chains", "label": "chain-witness",
+         "do": ["let WC = ite(chain_key in clashing_chains, WC, put(WC, chain_key, n))"]},
+        {"when": "before", "at": "clashing_chains[chain_key][residue_key] = set()", "label": "residue-witness",
+         "do": ["let WP = put(WP, (chain_key[0], chain_key[1], len(clashing_chains[chain_key])), n)"]},
+        {"when": "before", "at": "clashing_chains[chain_key][residue_key].add(", "label": "atom-witness",
+         "do": ["let WA = put(WA, (ri, rj, ai, aj, occupancy), n)"]},
         {"when": "before", "at": "max_occupancy_residues[ri, rj] =", "label": "residue-argmax",
          "do": ["let MR = ite((ri, rj) not in max_occupancy_residues or occupancy > max_occupancy_residues[ri, rj], put(MR, (ri, rj), n), MR)"]},
         {"when": "before", "at": "max_occupancy_chains[ri.chain, rj.chain] =", "label": "chain-argmax",
          "do": ["let MC = ite((ri.chain, rj.chain) not in max_occupancy_chains or occupancy > max_occupancy_chains[ri.chain, rj.chain], put(MC, (ri.chain, rj.chain), n), MC)"]},
+        {"when": "after", "at": "print(f'Clashes found in chain", "label": "chain-line",
+         "do": [PUSH_LINE, "let LK = push(LK, 0)", "let LC = push(LC, WC[ci, cj])"]},
+        {"when": "after", "at": "print(f'Clashes found between chains", "label": "chain-line",
+         "do": [PUSH_LINE, "let LK = push(LK, 0)", "let LC = push(LC, WC[ci, cj])"]},
+        {"when": "after", "at": "print(f'    Clashes found in residue", "label": "residue-line",
+         "do": [PUSH_LINE, "let LK = push(LK, 1)", "let LC = push(LC, WP[ci, cj, r])"]},
+        {"when": "after", "at": "print(f'    Clashes found between residues", "label": "residue-line",
+         "do": [PUSH_LINE, "let LK = push(LK, 1)", "let LC = push(LC, WP[ci, cj, r])"]},
+        {"when": "after", "at": "print(f'        Clashes found between atoms", "label": "atom-line",
+         "do": [PUSH_LINE, "let LK = push(LK, 2)", "let LC = push(LC, WA[ri, rj, ai, aj, occupancy])"]},
+        {"when": "after", "at": "writer.writerow([f'{os.path", "label": "csv-row",
+         "do": ["let ROWS = push(ROWS, last_row)", "let RC = push(RC, WA[ri, rj, ai, aj, occupancy])"]},
     ]
 
 
